@@ -20,62 +20,75 @@ pub fn sanitise(name: &str) -> String {
     name.replace([' ', '-', '/'], "_")
 }
 
-/// Strict-enough parser of `seq![ par![ seq![ name, ... ], ... ], ... ]` (one token per line).
+/// Parser of the nested `seq![ par![ seq![ name, ... ], ... ], ... ]` text. Only the nesting and
+/// the order of the names matter: line breaks, indentation and trailing commas are free.
 pub fn parse_par_seq(text: &str) -> Result<Vec<Vec<Vec<String>>>, String> {
-    let lines: Vec<&str> = text.lines().map(|l| l.trim()).filter(|l| !l.is_empty()).collect();
-    let mut i = 0;
-    let mut stages = Vec::new();
-    if lines.get(i) != Some(&"seq![") {
-        return Err(format!("expected `seq![` at line 0, got {:?}", lines.get(i)));
+    #[derive(Debug, PartialEq)]
+    enum Tok {
+        Seq,
+        Par,
+        Close,
+        Name(String),
     }
-    i += 1;
-    loop {
-        match lines.get(i) {
-            Some(&"]") => {
-                i += 1;
-                break;
+    let mut toks = Vec::new();
+    let mut rest = text.trim();
+    while !rest.is_empty() {
+        if let Some(r) = rest.strip_prefix("seq![") {
+            toks.push(Tok::Seq);
+            rest = r.trim_start();
+        } else if let Some(r) = rest.strip_prefix("par![") {
+            toks.push(Tok::Par);
+            rest = r.trim_start();
+        } else if let Some(r) = rest.strip_prefix(']') {
+            toks.push(Tok::Close);
+            rest = r.trim_start();
+        } else if let Some(r) = rest.strip_prefix(',') {
+            rest = r.trim_start();
+        } else {
+            // a name: up to the next separator, closing bracket or line break
+            let end = rest.find(|c| c == ',' || c == ']' || c == '\n').unwrap_or(rest.len());
+            let name = rest[..end].trim();
+            if name.is_empty() {
+                return Err(format!("empty token before {:?}", &rest[..rest.len().min(20)]));
             }
-            Some(&"par![") => {
-                i += 1;
+            toks.push(Tok::Name(name.to_string()));
+            rest = rest[end..].trim_start();
+        }
+    }
+    let mut it = toks.into_iter().peekable();
+    if it.next() != Some(Tok::Seq) {
+        return Err("the text does not start with `seq![`".into());
+    }
+    let mut stages = Vec::new();
+    loop {
+        match it.next() {
+            Some(Tok::Close) => break,
+            Some(Tok::Par) => {
                 let mut groups = Vec::new();
                 loop {
-                    match lines.get(i) {
-                        Some(&"],") => {
-                            i += 1;
-                            break;
-                        }
-                        Some(&"seq![") => {
-                            i += 1;
+                    match it.next() {
+                        Some(Tok::Close) => break,
+                        Some(Tok::Seq) => {
                             let mut names = Vec::new();
                             loop {
-                                match lines.get(i) {
-                                    Some(&"],") => {
-                                        i += 1;
-                                        break;
-                                    }
-                                    Some(l) if l.ends_with(',') && !l.ends_with("],") => {
-                                        let n = l[..l.len() - 1].to_string();
-                                        if n.is_empty() {
-                                            return Err(format!("empty system token at line {}", i));
-                                        }
-                                        names.push(n);
-                                        i += 1;
-                                    }
-                                    other => return Err(format!("unexpected {:?} inside a group at line {}", other, i)),
+                                match it.next() {
+                                    Some(Tok::Close) => break,
+                                    Some(Tok::Name(n)) => names.push(n),
+                                    other => return Err(format!("unexpected {:?} inside a group", other)),
                                 }
                             }
                             groups.push(names);
                         }
-                        other => return Err(format!("unexpected {:?} inside a stage at line {}", other, i)),
+                        other => return Err(format!("unexpected {:?} inside a stage", other)),
                     }
                 }
                 stages.push(groups);
             }
-            other => return Err(format!("unexpected {:?} at line {}", other, i)),
+            other => return Err(format!("unexpected {:?} at stage level", other)),
         }
     }
-    if i != lines.len() {
-        return Err(format!("trailing text after the closing bracket: {:?}", &lines[i..]));
+    if let Some(t) = it.next() {
+        return Err(format!("trailing text after the closing bracket: {:?}", t));
     }
     Ok(stages)
 }
